@@ -174,6 +174,12 @@ def search():
 def main():
     sys.stdin.read()
     n, fail = search()
+    if not fail:
+        from mimic_frame import own_state_problems
+        from haiway import cache as _cache
+        n += 1
+        p = own_state_problems(lambda f: _cache(limit=2, expiration=5.0)(f), True, "async cache")
+        fail = dict(problem=p) if p else None
     if fail:
         print(json.dumps(dict(reproduced=True, detail=fail, cases_tried=n), default=str))
     else:
